@@ -9,6 +9,7 @@ CONSTANTS Hosts, Fps,
           DevReplaceClearsInOwnTxn,  \* current import_toml(merge=False): self.clear() commits first
           DevExistenceViaSecondConn  \* current import_toml: get_host_info() reads `committed`, not `txn`
 None == "none"
+NameOf(h) == h         \* the host name of a host:port pair; the registered instance uses one port per name
 CommitPc == 100
 DonePc == 200
 Empty == [h \in Hosts |-> None]
@@ -34,6 +35,8 @@ Fails(s, o) == o.kind = "import" /\ (~Wellformed(o)
 After(s, o) ==
   CASE o.kind = "trust"  -> [s EXCEPT ![o.h] = o.fp]
     [] o.kind = "revoke" -> [s EXCEPT ![o.h] = None]
+    \* revoke by host name (`nauyaca tofu revoke HOST` without a port): every pin of that NAME, on any port - and of no other name
+    [] o.kind = "revokeName" -> [x \in Hosts |-> IF NameOf(x) = NameOf(o.h) THEN None ELSE s[x]]
     [] o.kind = "clear"  -> [h \in Hosts |-> None]
     [] o.kind = "import" -> IF Fails(s, o) THEN s
                             ELSE ApplyEntries(IF o.merge THEN s ELSE [h \in Hosts |-> None], o.entries, o.policy)
@@ -45,7 +48,7 @@ Txn(st) == [open |-> TRUE, s |-> st]
 Init == /\ committed \in Store /\ txn = NoTxn /\ op \in Ops /\ pc = 0
         /\ before = committed /\ outcome = "running"
 \* single-statement operations: one write statement, then COMMIT
-Write1 == /\ pc = 0 /\ op.kind \in {"trust", "revoke", "clear"}
+Write1 == /\ pc = 0 /\ op.kind \in {"trust", "revoke", "revokeName", "clear"}
           /\ txn' = Txn(After(committed, op)) /\ pc' = CommitPc
           /\ UNCHANGED <<committed, op, before, outcome>>
 \* import: optional clear, then one entry per step
@@ -89,6 +92,7 @@ DoneIsAfter == (outcome = "ok" /\ NoDup(op)) => committed = After(before, op)
 FailureRaises == (op.kind = "import" /\ Fails(before, op) /\ NoDup(op)) => outcome # "ok"
 OthersUntouched == \A h \in Hosts :
    (op.kind \in {"trust", "revoke"} /\ h # op.h) \/
+   (op.kind = "revokeName" /\ NameOf(h) # NameOf(op.h)) \/
    (op.kind = "import" /\ op.merge /\ \A i \in 1..Len(op.entries) : op.entries[i].h # h)
       => committed[h] = before[h]
 =============================================================================
